@@ -46,15 +46,12 @@ missing = [t for t in base['stable_pass'] if res.get(t) != 'pass']
 meta["suite_stable_passing"] = f"{len(base['stable_pass'])-len(missing)}/{len(base['stable_pass'])}"
 meta["suite_not_passing"] = missing[:5]
 reset()
-# run the checks against /repo with the mutation applied
-import fcntl
-_lk = open("/tmp/repo.lock", "w"); fcntl.flock(_lk, fcntl.LOCK_EX)   # /repo is shared: one evaluation at a time
-assert sh("git status --porcelain", "/repo")[1].strip() == "", "repo dirty"
-rc, o = sh(f"git apply {patch}", "/repo")
+# run the checks against the scratch worktree with the mutation applied (never /repo)
+rc, o = sh(f"git apply {patch}", wt)
 meta["applies_to_repo"] = rc == 0
 caught = {}
 if rc == 0:
-    e2 = dict(env, VERIF_NO_EVIDENCE="1")
+    e2 = dict(env, VERIF_NO_EVIDENCE="1", VERIF_REPO=wt)
     p = subprocess.run("./check all quick", shell=True, cwd="/verif", env=e2, capture_output=True, text=True)
     cur = None
     for l in p.stdout.split("\n"):
@@ -65,8 +62,7 @@ if rc == 0:
             caught.setdefault(cur, [])
             if len(caught[cur]) < 3: caught[cur].append(m2.group(1) + " :: " + m2.group(2)[:160])
     meta["checker_failures"] = [l[:200] for l in p.stdout.split("\n") if l.startswith("CHECKER-FAILURE")][:3]
-sh("git checkout -- . && git clean -fdq", "/repo")
-fcntl.flock(_lk, fcntl.LOCK_UN)
+reset()
 meta["caught_by"] = caught
 meta["caught_by_own_property"] = pid in caught
 valid = meta["patch_applies"] and meta["builds"] and meta["demo_without_change"] == "pass" and meta["demo_with_change"] == "fail" and not missing
